@@ -1,5 +1,5 @@
 """C03 - bin-packing results are feasible packings of exactly the input items."""
-from .. import core, scope, gen
+from .. import core, scope, gen, models
 from .common import *
 
 WITNESS = [{"vals": [4, 4, 8, 9, 9, 8, 7, 3, 4, 3], "C": 20}, {"vals": [30, 30, 30, 30, 40, 40], "C": 100}]
@@ -7,6 +7,7 @@ WITNESS = [{"vals": [4, 4, 8, 9, 9, 8, 7, 3, 4, 3], "C": 20}, {"vals": [30, 30, 
 
 def run(ck):
     q = ck.quick()
+    models.heur_mc(ck, ["ff", "bf", "ffd", "bfd"], ["FitStepInv", "FinalOK"], maxn=4 if q else 5)
     Q = scope.q_scope(ck, 5, 4, [4]) + scope.q_scope(ck, 5 if not q else 4, 6, [6])
     Q = [g for g in Q if max(g["vals"]) <= g["C"]]
     ck.exhaustive = True
@@ -21,6 +22,9 @@ def run(ck):
             g = dict(g); g["den"] = 8; g["orc"] = 0
             g["calls"] = [pcall(a, "list") for a in FIT4]
             groups.append(g); ck.cat("dyadic")
+    for g in scope.p_scope(ck, 8, 7, 1, minv=2):
+        if len(g["vals"]) >= 7:
+            groups.append({"vals": g["vals"], "C": 12, "orc": 0, "calls": [pcall("bc", "list")]})
     fam = gen.pack_families(ck.rng, 400 if q else 8000, maxn=12 if q else 14)
     for g in fam + WITNESS:
         g = dict(g); g["orc"] = 0
